@@ -63,13 +63,20 @@ def py_model(c, v):
     return c["lo"] + (c["hi"] - c["lo"]) * f
 
 
-HDR = """From QV Require Import Model.ForceBias.
+HDR = """From QV Require Import Model.ForceBias Proofs.AdaptiveProofs.
 From Coq Require Import Lra.
 From Interval Require Import Tactic.
 Open Scope R_scope.
 Ltac close_case n model impl tol :=
   first [ assert (Rabs (model - impl) <= tol) by (cbv [delta_of upd_tanh upd_exp atanh]; interval with (i_prec 80)); idtac "CASE" n "CLOSE"
         | assert (tol < Rabs (model - impl)) by (cbv [delta_of upd_tanh upd_exp atanh]; interval with (i_prec 80)); idtac "CASE" n "FAR"
+        | idtac "CASE" n "UNDECIDED" ].
+(* variance >= 64 x reference: squeeze between lo and the model's value at v0 = 64 r (antitone + range theorems) *)
+Ltac big_case n U Uok r lo hi v0 v impl tol :=
+  first [ assert (Rabs (delta_of lo hi (U r v) - impl) <= 2 * tol) by
+            (apply (delta_squeeze r (U r) (Uok r ltac:(lra)) lo hi ltac:(lra) v0 v impl tol);
+             [ lra | lra
+             | cbv [delta_of upd_tanh upd_exp atanh]; interval with (i_prec 80) | lra | lra ]); idtac "CASE" n "CLOSE"
         | idtac "CASE" n "UNDECIDED" ].
 """
 
@@ -122,7 +129,12 @@ def run(res: C.Result):
             distinct.add((lo, hi, c["r"], c["fn"], v))
             tol = 64 * ulp * max(abs(lo), abs(hi)) + 1e-300
             model = f"delta_of {C.rlit(lo)} {C.rlit(hi)} (upd_{c['fn']} {C.rlit(c['r'])} {C.rlit(v)})"
-            coq.append(f"close_case {len(meta)}%nat ({model}) {C.rlit(d)} {C.rlit(tol)}.")
+            if v >= 64 * c["r"] and hi >= lo:
+                coq.append(f"big_case {len(meta)}%nat upd_{c['fn']} {c['fn']}_is_update {C.rlit(c['r'])} {C.rlit(lo)} {C.rlit(hi)} "
+                           f"{C.rlit(64 * c['r'])} {C.rlit(v)} {C.rlit(d)} {C.rlit(tol)}.")
+                dist["squeezed"] = dist.get("squeezed", 0) + 1
+            else:
+                coq.append(f"close_case {len(meta)}%nat ({model}) {C.rlit(d)} {C.rlit(tol)}.")
             meta.append((k, v, d))
     # monotonicity across all observations sharing (lo, hi, r, fn)
     for key, obs in groups.items():
